@@ -214,11 +214,14 @@ def C09(s, known):
 
 
 def C12(s, known):
-    s.build(race=(s.tier != "quick"))
+    s.build(race=(s.tier != "quick"), need_inproc=True)
     # the iterator: every interleaving for trees up to 6 nodes, channel capacity 1..2 (abstracting 100), consumer stopping at any node or never
     for cap in (1, 2):
         for stop in ((0, 1, 3, 6) if s.tier == "quick" else range(0, 7)):
             s.model("IterVisitor", cfg="IterVisitorMC.cfg", workers=2, constants={"N": 6, "Cap": cap, "StopAt": stop})
+    if s.inproc_ok:
+        mi = s.drive("iter", binary=s.vinproc)
+        s.validate(mi, "IterTrace", known=known, shard=max(20, len_records(mi) // 8 + 1))
     m = s.drive("c12")
     s.validate(m, "C12Trace", known=known, shard=1000)
     return dict(level="model_checking",
